@@ -96,6 +96,7 @@ class Ledger(Base):
         self.commands = 0
         self.submits: Dict[str, List[str]] = defaultdict(list)  # id -> [NN]
         self.late_polled: List[list] = []
+        self.late_msgs: List[list] = []
 
     def on_event(self, ev):
         k = ev['k']
@@ -110,17 +111,33 @@ class Ledger(Base):
             for j in ev['jobs']:
                 p, n, num = j.split('/')
                 self.submits[f'{p}/{n}'].append(num)
+        elif k == 'DELIVER':
+            # a job message arriving for a task that has already left the
+            # pool (its final message overtook this one): the output is not
+            # recorded and its children are not spawned
+            tid = ev['job'].rsplit('/', 1)[0]
+            schd = self.drv.schd
+            if tid in self.submits and schd is not None and \
+                    schd.pool._get_task_by_id(tid) is None:
+                self.late_msgs.append([tid, ev['message']])
         elif k == 'MSG_OUT' and ev.get('transient') and \
-                ev.get('flag') == '(polled)':
+                not ev.get('forced') and ev.get('flag') in (
+                    '(polled)', '(received)'):
             new = set(ev['outputs_after']) - set(ev['outputs_before'])
             if new:
-                # an output learnt from a poll for a task that has already
-                # left the pool: its children are not spawned
-                self.late_polled.append([ev['id'], sorted(new)])
+                # an output learnt (from a poll, or from a job message that
+                # the job's final message overtook) for a task that has
+                # already left the pool: its children are not spawned
+                if ev['flag'] == '(polled)':
+                    self.late_polled.append([ev['id'], sorted(new)])
+                else:
+                    self.late_msgs.append([ev['id'], sorted(new)])
 
     def summary(self, drv):
         return {'late_polled_outputs_on_removed_tasks': self.late_polled,
-                'n_late_polled': len(self.late_polled)}
+                'n_late_polled': len(self.late_polled),
+                'messages_after_task_left_pool': self.late_msgs,
+                'n_late_msgs': len(self.late_msgs)}
 
     def actual_facts(self) -> Set[Tuple[str, int, str]]:
         """Outputs actually completed by jobs so far (the world's truth),
